@@ -158,7 +158,7 @@ def run(check):
         for (pos, ptype) in POSITIONS:
             gs.append(fault_case(fclass, ftype, fexpr, ov, pos, ptype))
     gs += misbehaving_cases(check)
-    for rep in range(check.pick(6, 40)):
+    for rep in range(check.pick(30, 120)):
         for par in (8, 64):
             sub = gen.sub_program("sub.yaml", 1)
             fe = Step("loop", "foreach", sub=sub, items=Expr(In("items")), parallelism=par)
